@@ -17,6 +17,7 @@ import (
 	"go/types"
 	"sort"
 	"strings"
+	"sync"
 
 	"golang.org/x/tools/go/cfg"
 	"golang.org/x/tools/go/packages"
@@ -63,7 +64,115 @@ func (f *Func) Pos(p token.Pos) string {
 
 // Callee resolves the static callee of a call (function, method, builtin) or nil.
 func (f *Func) Callee(call *ast.CallExpr) types.Object {
-	return typeutil.Callee(f.Info, call)
+	direct := typeutil.Callee(f.Info, call)
+	if _, isVar := direct.(*types.Var); direct != nil && !isVar {
+		return direct
+	}
+	// a call through a local that holds a method value or a function (`h := x.m; h()`), assigned exactly once
+	if rhs := f.FuncValue(call.Fun); rhs != nil {
+		switch t := rhs.(type) {
+		case *ast.SelectorExpr:
+			if sel := f.Info.Selections[t]; sel != nil {
+				return sel.Obj()
+			}
+			return f.Info.Uses[t.Sel]
+		case *ast.Ident:
+			return f.Info.Uses[t]
+		}
+	}
+	return direct
+}
+
+var (
+	funcValMu  sync.Mutex
+	funcValIdx = map[*types.Info]map[types.Object]ast.Expr{}
+)
+
+// FuncValue returns, for an identifier that denotes a local variable assigned exactly once in its package's
+// source from a method value (`x.m`) or a declared function, that right-hand side; nil otherwise.
+func (f *Func) FuncValue(x ast.Expr) ast.Expr {
+	id, ok := ast.Unparen(x).(*ast.Ident)
+	if !ok || f.Pkg == nil {
+		return nil
+	}
+	v, ok := f.objOf(id).(*types.Var)
+	if !ok || v.IsField() {
+		return nil
+	}
+	funcValMu.Lock()
+	defer funcValMu.Unlock()
+	idx := funcValIdx[f.Info]
+	if idx == nil {
+		idx = map[types.Object]ast.Expr{}
+		count := map[types.Object]int{}
+		note := func(l ast.Expr, r ast.Expr) {
+			lid, ok := l.(*ast.Ident)
+			if !ok {
+				return
+			}
+			o := f.objOf(lid)
+			if o == nil {
+				return
+			}
+			count[o]++
+			if r == nil {
+				return
+			}
+			switch t := ast.Unparen(r).(type) {
+			case *ast.SelectorExpr:
+				if sel := f.Info.Selections[t]; sel != nil && sel.Kind() == types.MethodVal {
+					idx[o] = t
+				} else if _, isFunc := f.Info.Uses[t.Sel].(*types.Func); isFunc && sel == nil {
+					idx[o] = t
+				}
+			case *ast.Ident:
+				if _, isFunc := f.Info.Uses[t].(*types.Func); isFunc {
+					idx[o] = t
+				}
+			}
+		}
+		for _, file := range f.Pkg.Syntax {
+			ast.Inspect(file, func(n ast.Node) bool {
+				switch s := n.(type) {
+				case *ast.AssignStmt:
+					for i, l := range s.Lhs {
+						var r ast.Expr
+						if len(s.Lhs) == len(s.Rhs) {
+							r = s.Rhs[i]
+						}
+						note(l, r)
+					}
+				case *ast.ValueSpec:
+					for i, name := range s.Names {
+						var r ast.Expr
+						if len(s.Names) == len(s.Values) {
+							r = s.Values[i]
+						}
+						if len(s.Values) > 0 {
+							note(name, r)
+						}
+					}
+				case *ast.RangeStmt:
+					if s.Key != nil {
+						note(s.Key, nil)
+					}
+					if s.Value != nil {
+						note(s.Value, nil)
+					}
+				case *ast.IncDecStmt:
+					note(s.X, nil)
+				}
+				return true
+			})
+		}
+		for o, n := range count {
+			if n != 1 {
+				delete(idx, o)
+			}
+		}
+		funcValIdx[f.Info] = idx
+	}
+	return idx[v]
 }
 
 // Val is a three-valued truth value.
@@ -127,6 +236,9 @@ func (s *State) Facts() []string {
 	sort.Strings(out)
 	return out
 }
+
+// Clone returns a private copy of the state (for rules that fork a state in a hook).
+func (s *State) Clone() *State { return s.clone("") }
 
 func (s *State) clone(via string) *State {
 	n := &State{facts: make(map[string]Val, len(s.facts)+2), defers: s.defers, parent: s, via: via, inner: s.inner}
@@ -236,6 +348,25 @@ type Config struct {
 	// Inline, when set, is asked for the body of a statically resolved callee; a non-nil answer
 	// (a Func of the same package) makes the engine interpret the call in place (see inline.go).
 	Inline func(call *ast.CallExpr, callee *types.Func) *Func
+	// OnInline is called when an inlined call is entered (after the parameters were bound) and when it is left
+	// (after the facts about aliased parameters were copied back, before the results are assigned): rules that
+	// carry their own event facts per variable move them across the call here.
+	OnInline func(st *State, ev *InlineEvent)
+}
+
+// InlineEvent describes one entry into / exit from a call interpreted in place.
+type InlineEvent struct {
+	Call   *ast.CallExpr
+	Callee *types.Func
+	Fn     *Func
+	Enter  bool
+	// Params / Args pair the callee's receiver and parameters (identifiers) with the operands of the call.
+	Params []*ast.Ident
+	Args   []ast.Expr
+	// Results are the callee's result expressions on this exit (nil on entry or when they cannot be named);
+	// Return is the callee's return statement (nil when falling off the end).
+	Results []ast.Expr
+	Return  *ast.ReturnStmt
 }
 
 // Result of an analysis.
@@ -268,8 +399,49 @@ type Engine struct {
 	err  error
 
 	inlineStack []*types.Func
+	typeStack   []*ast.FuncType // function types of the bodies being interpreted (innermost last)
 	indexed     map[*ast.BlockStmt]bool
 	skipCall    map[*ast.CallExpr]bool
+	skipAll     bool // do not fire call events (the expression was evaluated already)
+}
+
+func (e *Engine) curType() *ast.FuncType {
+	if n := len(e.typeStack); n > 0 {
+		return e.typeStack[n-1]
+	}
+	return e.Fn.Type
+}
+
+// assignNamedResults models `return e1, e2` in a function with named results: the results take the values
+// (deferred functions may read them).
+func (e *Engine) assignNamedResults(states []*State, s *ast.ReturnStmt, exit exitFn) []*State {
+	ft := e.curType()
+	if ft == nil || ft.Results == nil || len(s.Results) == 0 {
+		return states
+	}
+	var names []*ast.Ident
+	for _, fld := range ft.Results.List {
+		names = append(names, fld.Names...)
+	}
+	if len(names) != len(s.Results) {
+		return states
+	}
+	for i, name := range names {
+		if name.Name == "_" {
+			continue
+		}
+		if id, ok := ast.Unparen(s.Results[i]).(*ast.Ident); ok && e.Fn.objOf(id) == e.Fn.objOf(name) {
+			continue // return err (the result itself)
+		}
+		var next []*State
+		for _, st := range states {
+			e.skipAll = true
+			next = append(next, e.assignOne(st, name, ast.Unparen(s.Results[i]), exit)...)
+			e.skipAll = false
+		}
+		states = next
+	}
+	return states
 }
 
 type factDeps struct {
@@ -543,11 +715,34 @@ func (e *Engine) runDefers(st *State, base int, kind ExitKind, ret *ast.ReturnSt
 		inner := rest.clone(e.Fn.Pos(d.Pos()) + " run deferred func")
 		saved := inner.defers
 		inner.defers = nil
+		e.typeStack = append(e.typeStack, lit.Type)
 		e.run(lit.Body, []*State{inner}, func(s2 *State, k2 ExitKind, _ *ast.ReturnStmt, _ ast.Node) {
 			s3 := s2.clone("")
 			s3.defers = saved
+			e.typeStack = e.typeStack[:len(e.typeStack)-1]
 			e.runDefers(s3, base, kind, ret, at, out)
+			e.typeStack = append(e.typeStack, lit.Type)
 		})
+		e.typeStack = e.typeStack[:len(e.typeStack)-1]
+		return
+	}
+	// a deferred call of a function the rule lets the engine interpret: like a deferred literal (a recover() in
+	// it is taken to be called by the deferred function itself)
+	if call, fn, callee := e.inlTarget(d.Call); fn != nil {
+		inner := rest.clone(e.Fn.Pos(d.Pos()) + " run deferred " + callee.Name())
+		saved := inner.defers
+		inner.defers = nil
+		panicOut := func(s2 *State, k2 ExitKind, _ *ast.ReturnStmt, _ ast.Node) {
+			s3 := s2.clone("")
+			s3.defers = saved
+			e.runDefers(s3, base, kind, ret, at, out)
+		}
+		for _, o := range e.inline(inner, call, fn, callee, panicOut, nil) {
+			s3 := o.st.clone("")
+			s3.inner = nil
+			s3.defers = saved
+			e.runDefers(s3, base, kind, ret, at, out)
+		}
 		return
 	}
 	// plain deferred call: evaluate it now
@@ -586,7 +781,7 @@ func (e *Engine) exec(st *State, n ast.Node, exit exitFn) []*State {
 	case *ast.ExprStmt:
 		if call, fn, callee := e.inlTarget(s.X); fn != nil {
 			var out []*State
-			for _, o := range e.inline(st, call, fn, callee, exit) {
+			for _, o := range e.inline(st, call, fn, callee, exit, nil) {
 				o.st.inner = nil
 				out = append(out, o.st)
 			}
@@ -615,7 +810,7 @@ func (e *Engine) exec(st *State, n ast.Node, exit exitFn) []*State {
 		if len(s.Results) == 1 {
 			if call, fn, callee := e.inlTarget(s.Results[0]); fn != nil {
 				var out []*State
-				for _, o := range e.inline(st, call, fn, callee, exit) {
+				for _, o := range e.inline(st, call, fn, callee, exit, nil) {
 					states := []*State{o.st}
 					if len(o.results) == 1 {
 						// the returned value is the callee's: attach what is known about it to the call expression
@@ -636,6 +831,7 @@ func (e *Engine) exec(st *State, n ast.Node, exit exitFn) []*State {
 		for _, r := range s.Results {
 			e.evalCalls(st, r, exit)
 		}
+		return e.assignNamedResults([]*State{st}, s, exit)
 	case *ast.SendStmt:
 		e.evalCalls(st, s.Chan, exit)
 		e.evalCalls(st, s.Value, exit)
@@ -681,7 +877,7 @@ func (e *Engine) assign(st *State, lhs, rhs []ast.Expr, tok token.Token, exit ex
 				}
 			}
 			var out []*State
-			for _, o := range e.inline(st, call, fn, callee, exit) {
+			for _, o := range e.inline(st, call, fn, callee, exit, nil) {
 				o.st.inner = nil
 				states := []*State{o.st}
 				if len(o.results) == len(lhs) {
@@ -997,7 +1193,7 @@ func (e *Engine) KillVar(st *State, o types.Object) {
 
 // evalCalls visits the calls inside x in evaluation order (inner first), firing events.
 func (e *Engine) evalCalls(st *State, x ast.Expr, exit exitFn) {
-	if x == nil {
+	if x == nil || e.skipAll {
 		return
 	}
 	switch t := ast.Unparen(x).(type) {
@@ -1268,22 +1464,27 @@ func isConstName(s string) bool {
 
 // assumeInlined handles an atom that is, or compares, a call interpreted in place.
 func (e *Engine) assumeInlined(st *State, x ast.Expr, want bool, exit exitFn) ([]*State, bool) {
-	if e.cfg.Inline == nil || exit == nil {
+	if e.cfg.Inline == nil || exit == nil || e.skipAll {
 		return nil, false
 	}
 	if call, fn, callee := e.inlTarget(x); fn != nil {
 		var out []*State
-		for _, o := range e.inline(st.clone(""), call, fn, callee, exit) {
-			o.st.inner = nil
+		// the result is assumed inside the callee's vocabulary, before the facts about its parameters are copied back
+		mid := func(s *State, o *inlExit) []*State {
 			if len(o.results) != 1 {
-				out = append(out, e.decide(o.st, e.Fn.CallKey(call), false, want, x)...)
-				continue
+				return e.decide(s, e.Fn.CallKey(call), false, want, x)
 			}
-			for _, t := range e.assume(o.st, o.results[0], want, exit) {
+			var res []*State
+			for _, t := range e.assume(s, o.results[0], want, exit) {
 				t = t.clone("")
 				e.learn(t, e.Fn.CallKey(call), boolVal(want), x)
-				out = append(out, t)
+				res = append(res, t)
 			}
+			return res
+		}
+		for _, o := range e.inline(st.clone(""), call, fn, callee, exit, mid) {
+			o.st.inner = nil
+			out = append(out, o.st)
 		}
 		return out, true
 	}
@@ -1302,7 +1503,7 @@ func (e *Engine) assumeInlined(st *State, x ast.Expr, want bool, exit exitFn) ([
 			continue
 		}
 		var out []*State
-		for _, o := range e.inline(st.clone(""), call, fn, callee, exit) {
+		for _, o := range e.inline(st.clone(""), call, fn, callee, exit, nil) {
 			o.st.inner = nil
 			states := []*State{o.st}
 			if len(o.results) == 1 {
